@@ -622,3 +622,92 @@ Section Vec.
 
   Lemma entry_base x : base (entry x).
   Proof. apply pushed_base. apply singleton_bins_length. Qed.
+
+  Lemma entry_unit x : (1 <= k)%nat -> 0 <= valueof x <= G -> unitS (entry x).
+  Proof. intros Hk Hv. exists (valueof x). split; [exact Hv|]. apply entry_sv; [exact Hk|lia]. Qed.
+
+  Lemma entry_big x : (2 <= k)%nat -> G < valueof x <= V ->
+    lineok (entry x) /\ pureE (entry x) /\ cnt_gt G (sv (entry x)) = 1.
+  Proof.
+    intros Hk Hv. pose proof (entry_sv x ltac:(lia) ltac:(lia)) as E.
+    assert (HN : Forall bigv [valueof x]) by (constructor; [exact Hv|constructor]).
+    assert (Hp : pure (sv (entry x))).
+    { rewrite E. apply Forall_app. split; [apply pure_zeros|apply bigv_pure; exact HN]. }
+    assert (Hc : cnt_gt G (sv (entry x)) = 1) by (rewrite E, (cnt_gt_split _ _ HN); reflexivity).
+    split; [|split; [exact Hp|exact Hc]]. split; [|apply pure_zmax; exact Hp].
+    apply (pure_spread _ Hp); [lia|]. rewrite Hc, E, app_length, repeat_length. cbn [length]. lia.
+  Qed.
+
+  Lemma init_fold : (2 <= k)%nat -> forall l, Forall (fun x => 0 <= valueof x <= V) l ->
+    forall bigs smalls, Forall base (bigs ++ smalls) -> Forall unitS smalls ->
+    Forall lineok bigs -> Forall pureE bigs ->
+    exists bigs' smalls',
+      fold_left (fun h x => heap_push h (singleton_bins valueof true k x)) l (bigs ++ smalls) = bigs' ++ smalls' /\
+      Forall base (bigs' ++ smalls') /\ Forall unitS smalls' /\ Forall lineok bigs' /\ Forall pureE bigs' /\
+      bigsum bigs' = bigsum bigs + cnt_gt G (map valueof l).
+  Proof.
+    intros Hk. induction l as [|x t IH]; intros Hl bigs smalls HB HU HL HP.
+    - exists bigs, smalls. cbn [fold_left map]. repeat split; try assumption. cbn. lia.
+    - apply Forall_cons_iff in Hl. destruct Hl as [Hx Hl]. cbn [fold_left map].
+      rewrite cnt_gt_cons, heap_push_pushed.
+      pose proof HB as HB'. apply Forall_app in HB'. destruct HB' as [HBb HBs].
+      destruct (Z_lt_le_dec G (valueof x)) as [Hbig|Hsm].
+      + destruct (entry_big x Hk ltac:(lia)) as (E1 & E2 & E3).
+        rewrite heap_insert_within by (apply units_after; [apply entry_base|exact (proj1 E1)|exact HBs|exact HU]).
+        destruct (IH Hl (heap_insert (entry x) bigs) smalls) as (b' & s' & F1 & F2 & F3 & F4 & F5 & F6).
+        * apply Forall_app. split; [apply heap_insert_Forall; [exact HBb|apply entry_base]|exact HBs].
+        * exact HU.
+        * apply heap_insert_Forall; assumption.
+        * apply heap_insert_Forall; assumption.
+        * exists b', s'. repeat split; try assumption.
+          rewrite F6, (bigsum_perm _ _ (heap_insert_perm (entry x) bigs)), bigsum_cons, E3.
+          unfold ind_gt. destruct (G <? valueof x) eqn:E; lia.
+      + assert (HUx : unitS (entry x)) by (apply entry_unit; lia).
+        rewrite heap_insert_skip.
+        * destruct (IH Hl bigs (heap_insert (entry x) smalls)) as (b' & s' & F1 & F2 & F3 & F4 & F5 & F6).
+          -- apply Forall_app. split; [exact HBb|apply heap_insert_Forall; [exact HBs|apply entry_base]].
+          -- apply heap_insert_Forall; assumption.
+          -- exact HL.
+          -- exact HP.
+          -- exists b', s'. repeat split; try assumption. rewrite F6.
+             unfold ind_gt. destruct (G <? valueof x) eqn:E; lia.
+        * pose proof (unit_key _ (entry_base x) HUx) as Hkx.
+          rewrite Forall_forall in *. intros y Hy.
+          pose proof (line_key y (HBb y Hy) (proj1 (HL y Hy))). lia.
+  Qed.
+
+  Lemma initial_Inv items : (2 <= k)%nat -> Forall (fun x => 0 <= valueof x <= V) items ->
+    cnt_gt G (map valueof items) <= Z.of_nat k -> Inv (initial_heap valueof true k items).
+  Proof.
+    intros Hk Hl Hc. unfold initial_heap.
+    assert (Hl' : Forall (fun x => 0 <= valueof x <= V) (sort_desc valueof items)).
+    { eapply Permutation_Forall; [symmetry; apply sort_desc_perm|exact Hl]. }
+    destruct (init_fold Hk (sort_desc valueof items) Hl' [] [] ltac:(constructor) ltac:(constructor)
+                ltac:(constructor) ltac:(constructor)) as (b' & s' & F1 & F2 & F3 & F4 & F5 & F6).
+    cbn [app] in F1. rewrite F1. split; [exact F2|]. right. exists b', s'.
+    split; [reflexivity|split; [exact F3|split; [exact F4|]]]. right. split; [exact F5|].
+    rewrite F6. change (bigsum []) with 0.
+    rewrite (cnt_gt_perm G _ _ (Permutation_map valueof (sort_desc_perm valueof items))). lia.
+  Qed.
+
+  (** ---- 6. the dichotomy ---- *)
+  Theorem kk_dichotomy_gen items b : (1 <= k)%nat -> items <> [] ->
+    Forall (fun x => 0 <= valueof x <= V) items -> cnt_gt G (map valueof items) <= Z.of_nat k ->
+    kk valueof true k items = Ok b ->
+    zmax (sums b) <= V \/ zmax (sums b) - zmin (sums b) <= G.
+  Proof.
+    intros Hk Hne Hl Hc Hkk.
+    destruct (Nat.eq_dec k 1) as [E1|E1].
+    - right. destruct (kk_partition valueof k items Hk Hne) as (b' & Hb' & (_ & HL & _)).
+      rewrite Hkk in Hb'. injection Hb' as <-. rewrite E1 in HL.
+      destruct b as [|x [|y t]]; cbn [length] in HL; try lia. cbn. lia.
+    - pose proof (kk_loop_Inv (length items - 1) _ (initial_Inv items ltac:(lia) Hl Hc)) as HI.
+      assert (Hpos : (1 <= length items)%nat) by (destruct items; [congruence|cbn [length]; lia]).
+      pose proof (kk_loop_length (length items - 1) (initial_heap valueof true k items)) as HN.
+      rewrite initial_heap_length in HN. specialize (HN Hpos ltac:(lia)).
+      unfold kk in Hkk.
+      destruct (kk_loop (length items - 1) (initial_heap valueof true k items)) as [|e [|e' r]];
+        cbn [length] in HN; try lia.
+      injection Hkk as <-. apply Inv_single; assumption.
+  Qed.
+End Vec.
